@@ -126,12 +126,49 @@ def wrap_ws(rng, s):
     return (rng.choice(WS) if k != 1 else '') + s + (rng.choice(WS) if k != 0 else '')
 
 
+DU_NAMES = None
+
+
+def du_names(month):
+    """the names dateutil's own table lists for the month (the generated Lean table Gen.duMonths is lifted from the same source)"""
+    global DU_NAMES
+    if DU_NAMES is None:
+        import dateutil.parser
+        DU_NAMES = [list(x) if isinstance(x, tuple) else [x] for x in dateutil.parser.parserinfo.MONTHS]
+    return DU_NAMES[month - 1]
+
+
+def recase(rng, w):
+    k = rng.randrange(4)
+    return w if k == 0 else w.lower() if k == 1 else w.upper() if k == 2 else ''.join(c.upper() if rng.random() < 0.5 else c.lower() for c in w)
+
+
 def name_strs(t, rng=None):
     mon, month = calendar.month_abbr[t.month], calendar.month_name[t.month]
     out = ['%02d %s %04d' % (t.day, month, t.year), '%d %s %04d' % (t.day, mon, t.year), '%s %d, %04d' % (month, t.day, t.year),
            '%d-%s-%04d' % (t.day, mon, t.year), '%s %d %04d' % (mon, t.day, t.year), '%d %s %04d' % (t.day, mon.lower(), t.year),
            '%s %02d, %04d' % (mon.upper(), t.day, t.year)]
+    if rng is not None:
+        # any name of dateutil's table ('Sept' too), any capitalisation, the four shapes of the theorem month_name_text
+        for _ in range(2):
+            w = recase(rng, rng.choice(du_names(t.month)))
+            dd = ('%02d' if rng.random() < 0.5 else '%d') % t.day
+            out.append(rng.choice(['%s %s %04d', '%s-%s-%04d']) % (dd, w, t.year) if rng.random() < 0.5 else
+                       rng.choice(['%s %s, %04d', '%s %s %04d']) % (w, dd, t.year))
     return out
+
+
+def time_suffix(rng, t):
+    """[ T]h:m[:s[.f]] of the time of day of t (the instant it carries is returned too)"""
+    lead = rng.choice(' T')
+    f = '%02d' if rng.random() < 0.7 else '%d'
+    k = rng.randrange(3) if not t.microsecond else 2
+    if k == 0:
+        return lead + (f + ':' + f) % (t.hour, t.minute), t.replace(second=0, microsecond=0)
+    s = lead + (f + ':' + f + ':' + f) % (t.hour, t.minute, t.second)
+    if k == 1 or not t.microsecond:
+        return s, t.replace(microsecond=0)
+    return s + '.%06d' % t.microsecond, t
 
 
 def spellings(t, rng, full):
@@ -194,11 +231,11 @@ def spellings(t, rng, full):
     out.append(('uk-str-padsep', L('str', 'uk', s_(padsep_str(rng, t, True, wt))), exp))
     out.append(('us-str-padsep', L('str', 'us', s_(padsep_str(rng, t, False, wt))), exp))
     out.append(('parts-hms-us', L('ymd', *['I:%d' % x for x in (t.year, t.month, t.day, t.hour, t.minute, t.second, t.microsecond)]), t))
-    names = name_strs(t)
-    for s in (names if full else rng.sample(names, 2)):
+    names = name_strs(t, rng)
+    for s in (names if full else rng.sample(names[:-2], 1) + names[-2:]):
         out.append(('month-name', L('str', rng.choice(['uk', 'us']), s_(s)), day))
-    if whole:
-        out.append(('month-name-time', L('str', 'uk', s_(names[0] + ' %02d:%02d:%02d' % (t.hour, t.minute, t.second))), t))
+    suffix, exp = time_suffix(rng, t)
+    out.append(('month-name-time', L('str', rng.choice(['uk', 'us']), s_(rng.choice(names) + suffix)), exp))
     return out
 
 
@@ -438,8 +475,15 @@ def laws(rng, tier, ctx):
         ukp, usp = padsep_str(rng, tu, True, True), padsep_str(rng, tu, False, True)
         checks.append(('law-uk-padsep', L('str', 'uk', s_(ukp)), safe(dt, ukp), tu))
         checks.append(('law-us-padsep', L('str', 'us', s_(usp)), safe(dt, usp, dialect='us'), tu))
-        nm = rng.choice(name_strs(t))
+        nm = rng.choice(name_strs(t, rng))
         checks.append(('law-month-name', L('str', 'uk', s_(nm)), safe(dt, nm), day))
+        suffix, exp = time_suffix(rng, tu)
+        nmt, dia = rng.choice(name_strs(t, rng)) + suffix, rng.choice(['uk', 'us'])
+        checks.append(('law-month-name-time', L('str', dia, s_(nmt)), safe(dt, nmt, dialect=dia), exp))
+        for u in ('D', 's', 'ms', 'us', 'h', 'm'):
+            checks.append(('law-numpy-' + u, L('np', s_(u), enc(tu)), safe(dt, np.datetime64(tu, u)), NP_TRUNC[u](tu)))
+        if NS_MIN < tu < NS_MAX:
+            checks.append(('law-numpy-ns', L('np', s_('ns'), enc(tu)), safe(dt, np.datetime64(tu, 'ns')), tu))
         if t.day > 12:
             checks.append(('law-uk-rejects-us', L('str', 'uk', s_(uss)), safe(dt, uss), 'raise ValueError'))
             checks.append(('law-us-rejects-uk', L('str', 'us', s_(uks)), safe(dt, uks, dialect='us'), 'raise ValueError'))
